@@ -1012,7 +1012,9 @@ fn src_piece(rng: &mut Rng, depth: &mut u32, defined: &mut [bool; 5]) -> String 
     let c = *rng.pick(SPECIALS);
     let cat = *rng.pick(&[14u32, 14, 12, 12, 9, 10, 5, 11, 11, 0, 13, 1, 2, 6, 15, 7, 3]);
     let sp = |rng: &mut Rng| if rng.chance(3, 4) { " " } else { "" };
-    match rng.below(30) {
+    match rng.below(32) {
+        30 => format!("\\globaldefs={}{}", *rng.pick(&["1", "-1", "0", "0"]), sp(rng)),
+        31 => format!("{{\\catcode`\\{c}={cat}{}}}{c}x{c} ", sp(rng)),
         0..=4 => {
             let g = if rng.chance(1, 6) { "\\global" } else { "" };
             // most changes are used at once: the character right behind the number, later on the line, on the next line
@@ -1107,7 +1109,19 @@ fn gen_source(rng: &mut Rng) -> String {
     if rng.chance(1, 2) {
         s.push('\n');
     }
-    s
+    // a doubled special character in front of two lowercase hexadecimal digits would be TeX's ^^xy form once the
+    // character is a superscript; lexer.rs does not have that form (finding C03/caret-hex-form, decided on the
+    // lexer's own events): keep the two digits apart
+    let cs: Vec<char> = s.chars().collect();
+    let hex = |c: char| c.is_ascii_digit() || ('a'..='f').contains(&c);
+    let mut t = String::new();
+    for (i, c) in cs.iter().enumerate() {
+        t.push(*c);
+        if i >= 2 && cs[i - 1] == cs[i - 2] && SPECIALS.contains(&cs[i - 1]) && hex(*c) && i + 1 < cs.len() && hex(cs[i + 1]) {
+            t.push('z');
+        }
+    }
+    t
 }
 
 fn run_event_src(src: &str) -> Value {
